@@ -302,6 +302,23 @@ def _supply(prog, fi, _depth=0):
                                 unknown = True
                 else:
                     unknown = True
+    # a reference in any other position (bound to a name, returned, stored, an arm of a conditional expression) can be
+    # called with anything
+    for m in prog.modules.values():
+        accounted = set()
+        for n in ast.walk(m.tree):
+            if isinstance(n, ast.Call):
+                accounted.add(id(n.func))
+                for x in list(n.args) + [k.value for k in n.keywords]:
+                    accounted.add(id(x))
+            elif isinstance(n, (ast.FunctionDef, ast.AsyncFunctionDef, ast.ClassDef)):
+                for d in n.decorator_list:
+                    accounted.add(id(d))
+        for n in ast.walk(m.tree):
+            if id(n) not in accounted and isinstance(n, (ast.Name, ast.Attribute)) and isinstance(getattr(n, "ctx", None), ast.Load) and is_ref(m, n):
+                if fi.cls is not None and isinstance(n, ast.Attribute) and dotted(n.value) not in ("self", "cls", fi.cls.name):
+                    continue  # another object's attribute of the same name
+                unknown = True
     _SUPPLY_CACHE[key] = (supplied, extra, unknown)
     return _SUPPLY_CACHE[key]
 
@@ -428,3 +445,168 @@ def flatten_helpers(prog, fi, depth=2, awaited=False):
     node.body = expand(node.body, 0, names)
     ast.fix_missing_locations(node)
     return node
+
+
+# ---- optional collaborators:  def f(..., sleep=None): ... (sleep if sleep is not None else trio.sleep)(...) ----------
+def _none_test(t, same):
+    return isinstance(t, ast.Compare) and len(t.ops) == 1 and isinstance(t.ops[0], ast.Is) and same(t.left) and isinstance(t.comparators[0], ast.Constant) and t.comparators[0].value is None
+
+
+def _rebinding_fallback(stmt, name):
+    """`if <name> is None: <name> = D`"""
+    return isinstance(stmt, ast.If) and not stmt.orelse and _none_test(stmt.test, lambda e: isinstance(e, ast.Name) and e.id == name) and len(stmt.body) == 1 and isinstance(stmt.body[0], ast.Assign) and len(stmt.body[0].targets) == 1 and isinstance(stmt.body[0].targets[0], ast.Name) and stmt.body[0].targets[0].id == name
+
+
+def _is_fallback_use(par, n, same):
+    """is the load `n` of an optional collaborator (a parameter or `self.<field>`) used ONLY to fall back to a default:
+         X if X is not None else D   |   D if X is None else X   |   X or D
+    `same(e)` tells whether expression e denotes the same collaborator"""
+    up = par.get(id(n))
+    # X or D
+    if isinstance(up, ast.BoolOp) and isinstance(up.op, ast.Or) and up.values and up.values[0] is n and len(up.values) == 2:
+        return True
+    # local = X   directly followed by   if local is None: local = D
+    if isinstance(up, ast.Assign) and up.value is n and len(up.targets) == 1 and isinstance(up.targets[0], ast.Name):
+        blk = par.get(id(up))
+        for fld in ("body", "orelse", "finalbody"):
+            seq = getattr(blk, fld, None)
+            if isinstance(seq, list) and up in seq:
+                i = seq.index(up)
+                if i + 1 < len(seq) and _rebinding_fallback(seq[i + 1], up.targets[0].id):
+                    return True
+    # the test  X is (not) None  of a conditional expression whose other arm is X
+    if isinstance(up, ast.Compare) and up.left is n and len(up.ops) == 1 and isinstance(up.ops[0], (ast.Is, ast.IsNot)) and isinstance(up.comparators[0], ast.Constant) and up.comparators[0].value is None:
+        ie = par.get(id(up))
+        if isinstance(ie, ast.IfExp) and ie.test is up:
+            arm = ie.body if isinstance(up.ops[0], ast.IsNot) else ie.orelse
+            return same(arm)
+        return False
+    if isinstance(up, ast.IfExp) and (up.body is n or up.orelse is n):
+        t = up.test
+        if isinstance(t, ast.Compare) and len(t.ops) == 1 and same(t.left) and isinstance(t.comparators[0], ast.Constant) and t.comparators[0].value is None:
+            return (isinstance(t.ops[0], ast.IsNot) and up.body is n) or (isinstance(t.ops[0], ast.Is) and up.orelse is n)
+    return False
+
+
+def _keyword_supplied_anywhere(prog, name):
+    cache = prog.__dict__.setdefault("_kw_anywhere", None)
+    if cache is None:
+        cache = set()
+        for m in prog.modules.values():
+            for n in ast.walk(m.tree):
+                if isinstance(n, ast.Call):
+                    for k in n.keywords:
+                        cache.add(k.arg)  # None: **kwargs somewhere (ignored: it carries caller-chosen names)
+        prog.__dict__["_kw_anywhere"] = cache
+    return name in cache
+
+
+def optional_collaborator_params(prog, fi):
+    """parameters of fi with default None that nothing in the package supplies and that the body only uses to fall back
+    to a default (`p if p is not None else D`, `p or D`): for every caller of the package they are None"""
+    a = fi.node.args
+    pos = a.posonlyargs + a.args
+    pairs = list(zip(pos[len(pos) - len(a.defaults):], a.defaults)) + [(x, d) for x, d in zip(a.kwonlyargs, a.kw_defaults) if d is not None]
+    cands = [x.arg for x, d in pairs if isinstance(d, ast.Constant) and d.value is None]
+    if not cands:
+        return []
+    par = parents_map(fi.node)
+    out = []
+    names_pos = [x.arg for x in pos]
+    for p in cands:
+        loads = [n for n in ast.walk(fi.node) if isinstance(n, ast.Name) and n.id == p and isinstance(n.ctx, ast.Load)]
+        stores = [n for n in ast.walk(fi.node) if isinstance(n, ast.Name) and n.id == p and isinstance(n.ctx, (ast.Store, ast.Del))]
+        if not loads:
+            continue
+        # `if p is None: p = D` as a top-level statement: from there on p is D
+        rebind = [st for st in fi.node.body if _rebinding_fallback(st, p)]
+        if rebind:
+            first = rebind[0]
+            inside = {id(x) for x in ast.walk(first)}
+            if len(stores) != 1 or id(stores[0]) not in inside or any(id(n) not in inside and n.lineno <= first.lineno for n in loads):
+                continue
+        else:
+            if stores or not all(_is_fallback_use(par, n, lambda e, p=p: isinstance(e, ast.Name) and e.id == p) for n in loads):
+                continue
+        if _keyword_supplied_anywhere(prog, p):
+            continue
+        # positionally: only when p is keyword-only or no call of the function reaches its position
+        if p in names_pos:
+            idx = names_pos.index(p) - (1 if fi.cls is not None and not fi.is_static else 0)
+            reached = False
+            for m in prog.modules.values():
+                for n in ast.walk(m.tree):
+                    if isinstance(n, ast.Call) and not isinstance(n.func, ast.Lambda):
+                        r = prog.resolve(m, n.func) if isinstance(n.func, (ast.Name, ast.Attribute)) else None
+                        hit = (r == fi.qual) or (fi.cls is not None and fi.name == "__init__" and r in prog.classes and fi.cls.qual in prog.classes[r].mro) or (fi.cls is not None and isinstance(n.func, ast.Attribute) and n.func.attr == fi.name)
+                        if hit and (len(n.args) > idx or any(isinstance(x, ast.Starred) for x in n.args)):
+                            reached = True
+            if reached:
+                continue
+        out.append(p)
+    return out
+
+
+def optional_collaborator_field(prog, cls, attr):
+    """is self.<attr> an optional collaborator: stored once, in __init__, from a parameter with default None that nothing
+    in the package supplies, and read everywhere only to fall back to a default -> it is None"""
+    key = (cls.qual, attr)
+    cache = prog.__dict__.setdefault("_collab_fields", {})
+    if key in cache:
+        return cache[key]
+    cache[key] = False
+    stores = []
+    loads = []
+    # the class family: cls, its bases and its subclasses (another class's attribute of the same name is another thing)
+    family = [c for c in prog.classes.values() if c.qual in cls.mro or cls.qual in c.mro]
+    for c in family:
+        for n in ast.walk(c.node):
+            if isinstance(n, ast.Attribute) and n.attr == attr and not any(n is x[1] for x in stores + loads):
+                (stores if isinstance(n.ctx, (ast.Store, ast.Del)) else loads).append((c.module, n))
+    if len(stores) != 1 or dotted(stores[0][1].value) != "self" or not loads:
+        return False
+    if attr.startswith("_") is False:
+        # a public attribute may be set from outside the class
+        for m in prog.modules.values():
+            for n in ast.walk(m.tree):
+                if isinstance(n, ast.Attribute) and n.attr == attr and isinstance(n.ctx, (ast.Store, ast.Del)) and not any(n is x[1] for x in stores):
+                    return False
+    init = None
+    for q in cls.mro:
+        c = prog.classes.get(q)
+        f = prog.lookup_method(c, "__init__") if c is not None else None
+        if f is not None and f.cls is c:
+            for st in f.node.body:
+                tg = st.targets[0] if isinstance(st, ast.Assign) and len(st.targets) == 1 else st.target if isinstance(st, ast.AnnAssign) and st.value is not None else None
+                if tg is stores[0][1] and isinstance(st.value, ast.Name):
+                    init, pname = f, st.value.id
+    if init is None:
+        return False
+    a = init.node.args
+    pos = a.posonlyargs + a.args
+    dflt = dict(zip([x.arg for x in pos[len(pos) - len(a.defaults):]], a.defaults))
+    dflt.update({x.arg: d for x, d in zip(a.kwonlyargs, a.kw_defaults) if d is not None})
+    d = dflt.get(pname)
+    if not (isinstance(d, ast.Constant) and d.value is None) or _keyword_supplied_anywhere(prog, pname):
+        return False
+    if pname in [x.arg for x in pos]:
+        idx = [x.arg for x in pos].index(pname) - 1
+        for m in prog.modules.values():
+            for n in ast.walk(m.tree):
+                if isinstance(n, ast.Call) and isinstance(n.func, (ast.Name, ast.Attribute)):
+                    r = prog.resolve(m, n.func)
+                    ctor = r in prog.classes and init.cls.qual in prog.classes[r].mro
+                    sup = isinstance(n.func, ast.Attribute) and n.func.attr == "__init__"
+                    if (ctor or sup) and (len(n.args) > idx or any(isinstance(x, ast.Starred) for x in n.args)):
+                        return False
+    # the parameter itself is only stored
+    if [n for n in ast.walk(init.node) if isinstance(n, ast.Name) and n.id == pname and isinstance(n.ctx, ast.Load)].__len__() != 1:
+        return False
+    for m, n in loads:
+        if dotted(n.value) != "self":
+            return False
+        par = parents_map(m.tree)
+        if not _is_fallback_use(par, n, lambda e: isinstance(e, ast.Attribute) and e.attr == attr and dotted(e.value) == "self"):
+            return False
+    cache[key] = True
+    return True
